@@ -184,6 +184,31 @@ def run(ctx, model):
                 ctx.violation("R-DEC-CONTEXT", f.relpath, f.short, "context of the no-integer alternative",
                               "a numeral without integer part is not accepted in exactly the contexts in which the same numeral "
                               "with integer part 0 is accepted", f.node.lineno, inp=inp, detail="; ".join(bad[:3]))
+    # ... and for Decimal the sign is OPTIONAL: an unsigned numeral (not directly after a sign) is accepted with
+    # include_sign=True in exactly the contexts in which it is accepted with include_sign=False
+    ci = model.cls(ESS, "Decimal")
+    f = ci.methods["__init__"]
+    for mind, maxd in ((1, 2), (2, 3)):
+        kw = {"start": 0, "end": 9, "min_decimal": mind, "max_decimal": maxd, "is_extensible": False}
+        terms = {}
+        for inc in (False, True):
+            k, t = FL.build(model, "Decimal", [], dict(kw, include_sign=inc))
+            terms[inc] = t if k == "term" else None
+        if None in terms.values():
+            continue
+        inp = f"Decimal({', '.join(f'{a}={b}' for a, b in kw.items())}, include_sign=False/True)"
+        bad = []
+        for pre in ["", "x", "_", "Z", " ", ".", ":", "\n", "\u00e9", "1"]:
+            for w in ["." + "5" * mind, "0." + "5" * mind, "7." + "2" * maxd]:
+                for post in ["", "x", " ", "."]:
+                    a, b = _e2e.accepts(terms[False], pre, w, post), _e2e.accepts(terms[True], pre, w, post)
+                    ctx.instance("R-DEC-CONTEXT", key=(inp, pre, w, post))
+                    if a != b:
+                        bad.append(f"{pre!r}+{w!r}+{post!r}: include_sign=False {'accepts' if a else 'rejects'}, include_sign=True {'accepts' if b else 'rejects'}")
+        if bad:
+            ctx.violation("R-DEC-CONTEXT", f.relpath, f.short, "context of an unsigned numeral",
+                          "allowing an optional sign changes which UNSIGNED numerals are accepted", f.node.lineno, inp=inp,
+                          detail="; ".join(bad[:3]))
     ctx.floor("R-DEC-CONTEXT", ctx.rule_counts.get("R-DEC-CONTEXT", 0), 200, "context comparisons")
 
     # ---------------- R-E2E: the text emitted by the real core builders denotes the composed term
